@@ -8,4 +8,5 @@ open Irismod.Props.Tie Irismod.Gen.PureHtlc Irismod.Sdk
 #print axioms decrement_and_outgoing_guards
 #print axioms tick_eq_translation
 #print axioms createHTLT_guards_eq_model
+#print axioms supply_calls_pass_the_amount
 #eval s!"nonvacuous {incIncomingVerdict "htltbnb" 40 30 0 30 100 50 false == some true && incIncomingVerdict "htltbnb" 40 30 0 31 100 50 false == some false && incIncomingVerdict "htltbnb" 40 30 10 11 100 50 true == some false && incCurrentVerdict "htltbnb" 40 10 60 100 70 true == some true}"
